@@ -36,7 +36,7 @@ def norm_dict(wn):
 
 class C13(StoreProp):
     id = 'C13'
-    quick_runs = 3000
+    quick_runs = 8000
     thorough_runs = 100000
     w = dict(WEIGHTS)
     w.update({'set_attr': 8, 'leak': 3, 'set_option': 5, 'remove': 5, 'add_demand': 4, 'add_control': 6, 'add_source': 3, 'restart': 3, 'quality': 3})
